@@ -1,133 +1,55 @@
-(* C12 -- Mangle window functions decide point membership exactly as the caps define.
-   Executable definitions only (no proofs).
-
-   Caps are (x : Q^3, cm : Q), points are Q^3: the harness passes the exact rational value of every
-   double the implementation holds, so the dot product here is the exact one.
-
-   M (algorithmic mirror of pydl/pydlutils/mangle.py and photoop/window.py):
-       is_cap_used, in_polygon (loop over range(usencaps)), in_window (vectorised first-match loop),
-       set_use_caps (OR loop + duplicate-removal double loop with `use_caps -= 1 << j`),
-       balkans_slice (ICAP/NCAPS slicing of the cap table, use_caps = 2^NCAPS - 1).
-   S (specification, independent of M):
-       spec_in_polygon (every used cap among the first n contains the point),
-       first_match / spec_window, spec_set_use_caps (bitwise description, greedy `kept`),
-       spec_balkans.
-   in_cap is the algebraic test the property states; C12/Arccos.v ties it to the code's
-   arccos(1-|cm|) - arccos(x.p) >= 0. *)
+(* C12 -- the ALGORITHMIC model M of pydl/pydlutils/mangle.py and of the balkans assembly in
+   pydl/photoop/window.py, built from the expressions that translate/c12.py extracts from the source on every
+   run (Generated/Mangle.v: gen_is_cap_used, gen_usencaps, gen_poly_init/acc, gen_window_*, gen_initial_use,
+   gen_set_bit, gen_inner_start, gen_clear_bit, gen_doubles, gen_balkans_use, gen_x/cm_src/dst_lo/hi).
+   The loop skeletons are hand-written transliterations; the decisions inside them are the generated ones.
+   Executable definitions only (no proofs); the specification S lives in C12/Spec.v and does not depend on
+   this file or on Generated/.  Also: the correspondence `case` type and run_case. *)
 From Coq Require Import ZArith QArith Qabs List Bool.
 Import ListNotations.
+From PV Require Import C12.Spec Generated.Mangle.
 Open Scope Z_scope.
-
-(* ------------------------------------------------------------------ caps and points *)
-
-Definition vec := (Q * Q * Q)%type.
-
-Definition dot (a b : vec) : Q :=
-  let '(a0, a1, a2) := a in let '(b0, b1, b2) := b in (a0 * b0 + a1 * b1 + a2 * b2)%Q.
-
-Record cap := mkcap { cx : vec; ccm : Q }.
-
-(* literals used by the generated case files: the double m * 2^-e, and a vector of three of them *)
-Definition qd (m e : Z) : Q := Qmake m (Z.to_pos (2 ^ e)).
-Definition v3 (m0 e0 m1 e1 m2 e2 : Z) : vec := (qd m0 e0, qd m1 e1, qd m2 e2).
-
-Definition Qlt_bool (a b : Q) : bool := negb (Qle_bool b a).
-
-(* is_in_cap: cap_distance(x, cm, p) >= 0.
-   cm >= 0 : arccos(1-cm) - arccos(d) >= 0   <->  1 - d <= cm
-   cm <  0 : -(arccos(1+cm) - arccos(d)) >= 0 <-> 1 - d >= -cm     (boundary counted inside: code's convention) *)
-Definition in_cap (c : cap) (p : vec) : bool :=
-  let omd := (1 - dot (cx c) p)%Q in
-  if Qlt_bool (ccm c) 0 then Qle_bool (- ccm c) omd else Qle_bool omd (ccm c).
-
-(* the strict complement of the cap (x, |cm|), as the property words it for cm < 0 *)
-Definition in_cap_strict (c : cap) (p : vec) : bool :=
-  let omd := (1 - dot (cx c) p)%Q in
-  if Qlt_bool (ccm c) 0 then negb (Qle_bool omd (- ccm c)) else Qle_bool omd (ccm c).
-
-Definition on_boundary (c : cap) (p : vec) : bool :=
-  Qeq_bool (1 - dot (cx c) p)%Q (Qabs (ccm c)).
 
 (* ------------------------------------------------------------------ polygons *)
 
-(* pn = the polygon's NCAPS/ncaps field; pcaps may be longer (FITS rows are padded to the table's
-   maximum cap count) *)
-Record polygon := mkpoly { pn : nat; puse : Z; pcaps : list cap }.
-
-(* is_cap_used(use_caps, i) = (use_caps & 1 << i) != 0 *)
-Definition is_cap_used (use : Z) (i : nat) : bool :=
-  negb (Z.land use (Z.shiftl 1 (Z.of_nat i)) =? 0).
+(* is_cap_used(use_caps, i) *)
+Definition is_cap_used (use : Z) (i : nat) : bool := gen_is_cap_used use (Z.of_nat i).
 
 (* usencaps = p['ncaps']; if ncaps > 0: usencaps = min(ncaps, p['ncaps']) *)
-Definition usencaps (P : polygon) (ncaps : Z) : nat :=
-  if 0 <? ncaps then Z.to_nat (Z.min ncaps (Z.of_nat (pn P))) else pn P.
+Definition usencaps (P : polygon) (ncaps : Z) : nat := Z.to_nat (gen_usencaps ncaps (Z.of_nat (pn P))).
 
-(* M: for icap in range(usencaps): if is_cap_used(use_caps, icap): in_polygon &= is_in_cap(x[icap], cm[icap], p)
+(* in_polygon = np.ones(...); for icap in range(usencaps): if is_cap_used(use_caps, icap):
+       in_polygon <op>= is_in_cap(x[icap], cm[icap], p)
    (a cap index beyond the stored arrays is an IndexError in Python: modelled as `false`) *)
 Definition in_polygon (P : polygon) (ncaps : Z) (p : vec) : bool :=
   fold_left (fun acc i =>
                if is_cap_used (puse P) i
-               then match nth_error (pcaps P) i with Some c => acc && in_cap c p | None => false end
+               then match nth_error (pcaps P) i with Some c => gen_poly_acc acc (in_cap c p) | None => false end
                else acc)
-            (seq 0 (usencaps P ncaps)) true.
-
-(* S: every cap among the first n whose use-mask bit is set contains the point *)
-Fixpoint all_used_from (i : nat) (use : Z) (cs : list cap) (p : vec) : bool :=
-  match cs with
-  | [] => true
-  | c :: cs' => (if Z.testbit use (Z.of_nat i) then in_cap c p else true) && all_used_from (S i) use cs' p
-  end.
-
-Definition spec_in_polygon (P : polygon) (ncaps : Z) (p : vec) : bool :=
-  all_used_from 0 (puse P) (firstn (usencaps P ncaps) (pcaps P)) p.
+            (seq 0 (usencaps P ncaps)) gen_poly_init.
 
 (* ------------------------------------------------------------------ window lookup *)
 
-(* M: in_polygon = -1 for all points; for curr_polygon = 0, 1, ...: the points still at -1 that lie in
-   polygons[curr_polygon] get curr_polygon.  Result (in_polygon >= 0, in_polygon). *)
+(* in_polygon = <default> for all points; curr_polygon = <start>; while curr_polygon < npoly: the points still
+   unassigned that lie in polygons[curr_polygon] get <assign curr_polygon>; curr_polygon = <next>.
+   Result (flag in_polygon, in_polygon). *)
 Definition window_step (ncaps : Z) (pts : list vec) (st : list Z * Z) (P : polygon) : list Z * Z :=
   let '(assigned, k) := st in
   (map (fun ap : Z * vec => let '(a, p) := ap in
-                            if a =? -1 then (if in_polygon P ncaps p then k else -1) else a)
-       (combine assigned pts), k + 1).
+                            if gen_window_unassigned a then (if in_polygon P ncaps p then gen_window_assign k else a) else a)
+       (combine assigned pts), gen_window_next k).
 
 Definition in_window_idx (Ps : list polygon) (ncaps : Z) (pts : list vec) : list Z :=
-  fst (fold_left (window_step ncaps pts) Ps (map (fun _ => -1) pts, 0)).
+  fst (fold_left (window_step ncaps pts) Ps (map (fun _ => gen_window_default) pts, gen_window_start)).
 
 Definition in_window (Ps : list polygon) (ncaps : Z) (pts : list vec) : list (bool * Z) :=
-  map (fun a => (0 <=? a, a)) (in_window_idx Ps ncaps pts).
-
-(* S: index of the first polygon in list order containing the point *)
-Fixpoint first_match_from (k : nat) (Ps : list polygon) (ncaps : Z) (p : vec) : option nat :=
-  match Ps with
-  | [] => None
-  | P :: Ps' => if spec_in_polygon P ncaps p then Some k else first_match_from (S k) Ps' ncaps p
-  end.
-
-Definition first_match := first_match_from 0.
-
-Definition spec_window (Ps : list polygon) (ncaps : Z) (pts : list vec) : list (bool * Z) :=
-  map (fun p => match first_match Ps ncaps p with
-                | Some k => (true, Z.of_nat k)
-                | None => (false, -1)
-                end) pts.
+  map (fun a => (gen_window_flag a, a)) (in_window_idx Ps ncaps pts).
 
 (* ------------------------------------------------------------------ set_use_caps *)
 
-Record suc_opts := mkopts { o_add : bool; o_tol : Q; o_allow_doubles : bool; o_allow_neg_doubles : bool }.
-
-Definition default_opts : suc_opts := mkopts false (1 # 10000000000) false false.
-
-Definition dist2 (a b : vec) : Q :=
-  let '(a0, a1, a2) := a in let '(b0, b1, b2) := b in
-  ((a0 - b0) * (a0 - b0) + (a1 - b1) * (a1 - b1) + (a2 - b2) * (a2 - b2))%Q.
-
-(* two caps count as doubles: same centre within tol and (same cm within tol, or -- unless
-   allow_neg_doubles -- cm of opposite sign and equal size within tol) *)
+(* the nested tests in front of `use_caps -= 1 << j` *)
 Definition same_cap (tol : Q) (allow_neg : bool) (a b : cap) : bool :=
-  Qlt_bool (dist2 (cx a) (cx b)) (tol * tol)%Q
-  && (Qlt_bool (Qabs (ccm a - ccm b)) tol
-      || (Qlt_bool (Qabs (ccm a + ccm b)) tol && negb allow_neg)).
+  gen_doubles tol allow_neg (dist2 (cx a) (cx b)) (ccm a) (ccm b).
 
 Definition dup_at (tol : Q) (allow_neg : bool) (caps : list cap) (i j : nat) : bool :=
   match nth_error caps i, nth_error caps j with
@@ -136,20 +58,22 @@ Definition dup_at (tol : Q) (allow_neg : bool) (caps : list cap) (i j : nat) : b
   end.
 
 (* for i in index_list: use_caps |= 1 << i *)
-Definition set_bits (u : Z) (idx : list Z) : Z :=
-  fold_left (fun u i => Z.lor u (Z.shiftl 1 i)) idx u.
+Definition set_bits (u : Z) (idx : list Z) : Z := fold_left gen_set_bit idx u.
 
-(* for j in range(i+1, ncaps): if is_cap_used(use_caps, j): if doubles(i, j): use_caps -= 1 << j *)
+(* for j in range(<inner start i>, ncaps): if is_cap_used(use_caps, j): if doubles(i, j): use_caps -= 1 << j *)
+Definition inner_range (n i : nat) : list nat :=
+  let s := Z.to_nat (gen_inner_start (Z.of_nat i)) in seq s (n - s).
+
 Definition dedup_inner (dup : nat -> nat -> bool) (n i : nat) (u : Z) : Z :=
-  fold_left (fun u j => if is_cap_used u j then (if dup i j then u - Z.shiftl 1 (Z.of_nat j) else u) else u)
-            (seq (S i) (n - S i)) u.
+  fold_left (fun u j => if is_cap_used u j then (if dup i j then gen_clear_bit u (Z.of_nat i) (Z.of_nat j) else u) else u)
+            (inner_range n i) u.
 
 (* for i in range(ncaps): if is_cap_used(use_caps, i): <inner loop> *)
 Definition dedup (dup : nat -> nat -> bool) (n : nat) (u : Z) : Z :=
   fold_left (fun u i => if is_cap_used u i then dedup_inner dup n i u else u) (seq 0 n) u.
 
 Definition set_use_caps (P : polygon) (idx : list Z) (o : suc_opts) : Z :=
-  let u0 := if o_add o then puse P else 0 in
+  let u0 := gen_initial_use (o_add o) (puse P) in
   let u1 := set_bits u0 idx in
   if o_allow_doubles o then u1
   else dedup (dup_at (o_tol o) (o_allow_neg_doubles o) (pcaps P)) (pn P) u1.
@@ -162,72 +86,35 @@ Definition dedup_inner_clear (dup : nat -> nat -> bool) (n i : nat) (u : Z) : Z 
 Definition dedup_clear (dup : nat -> nat -> bool) (n : nat) (u : Z) : Z :=
   fold_left (fun u i => if Z.testbit u (Z.of_nat i) then dedup_inner_clear dup n i u else u) (seq 0 n) u.
 
-(* S: which bits the result must have.
-   sel b  : bit b is selected (already set with add=True, or b occurs in the index list);
-   kept j : j is selected and no kept i < j is a double of j (caps are visited in index order and a
-            removed cap no longer removes others) *)
-Fixpoint keptf (dup : nat -> nat -> bool) (sel : nat -> bool) (fuel j : nat) : bool :=
-  match fuel with
-  | O => false
-  | S f => sel j && forallb (fun i => negb (keptf dup sel f i && dup i j)) (seq 0 j)
-  end.
-
-Definition kept (dup : nat -> nat -> bool) (sel : nat -> bool) (j : nat) : bool := keptf dup sel (S j) j.
-
-Definition selected (u0 : Z) (idx : list Z) (b : nat) : bool :=
-  Z.testbit u0 (Z.of_nat b) || existsb (fun i => i =? Z.of_nat b) idx.
-
-Definition spec_bit (P : polygon) (idx : list Z) (o : suc_opts) (b : nat) : bool :=
-  let sel := selected (if o_add o then puse P else 0) idx in
-  if o_allow_doubles o then sel b
-  else if (b <? pn P)%nat then kept (dup_at (o_tol o) (o_allow_neg_doubles o) (pcaps P)) sel b
-       else sel b.
-
-(* certified checker: r is the number whose bits below `width` are spec_bit and which has no others *)
-Definition spec_set_use_caps_ok (P : polygon) (idx : list Z) (o : suc_opts) (width : nat) (r : Z) : bool :=
-  (0 <=? r) && (r <? 2 ^ Z.of_nat width)
-  && forallb (fun b => Bool.eqb (Z.testbit r (Z.of_nat b)) (spec_bit P idx o b)) (seq 0 width).
-
 (* ------------------------------------------------------------------ window_read(balkans=True) *)
 
 Definition slice {A : Type} (lo n : nat) (l : list A) : list A := firstn n (skipn lo l).
 
-(* blist rows are (ICAP, NCAPS); XCAPS/CMCAPS[0:NCAPS] = bcaps[ICAP:ICAP+NCAPS]; USE_CAPS = (1 << NCAPS) - 1 *)
+(* Python a[lo:hi] for 0 <= lo *)
+Definition pyslice {A : Type} (lo hi : Z) (l : list A) : list A :=
+  firstn (Z.to_nat (hi - lo)) (skipn (Z.to_nat lo) l).
+
+Fixpoint zip_caps (xs : list vec) (cms : list Q) : list cap :=
+  match xs, cms with
+  | x :: xs', c :: cms' => mkcap x c :: zip_caps xs' cms'
+  | _, _ => []
+  end.
+
+(* blist rows are (ICAP, NCAPS):  XCAPS[dst_lo:dst_hi] = bcaps.X[src_lo:src_hi], likewise CMCAPS / CM, with the
+   generated bounds; USE_CAPS = gen_balkans_use NCAPS.  Destinations other than [0:NCAPS] are not modelled
+   (the polygon then gets no caps and the correspondence run raises the alarm). *)
+Definition balkans_poly (bcaps : list cap) (icap n : nat) : polygon :=
+  let zi := Z.of_nat icap in let zn := Z.of_nat n in
+  let xs := pyslice (gen_x_src_lo zi zn) (gen_x_src_hi zi zn) (map cx bcaps) in
+  let cms := pyslice (gen_cm_src_lo zi zn) (gen_cm_src_hi zi zn) (map ccm bcaps) in
+  let dst_ok := (gen_x_dst_lo zi zn =? 0) && (gen_x_dst_hi zi zn =? zn)
+                && (gen_cm_dst_lo zi zn =? 0) && (gen_cm_dst_hi zi zn =? zn) in
+  mkpoly n (gen_balkans_use zn) (if dst_ok then zip_caps xs cms else []).
+
 Definition balkans_slice (bcaps : list cap) (blist : list (nat * nat)) : list polygon :=
-  map (fun r : nat * nat => let '(icap, n) := r in
-                            mkpoly n (Z.shiftl 1 (Z.of_nat n) - 1) (slice icap n bcaps)) blist.
+  map (fun r : nat * nat => let '(icap, n) := r in balkans_poly bcaps icap n) blist.
 
 (* ------------------------------------------------------------------ correspondence cases *)
-
-Definition eqb_listb (a b : list bool) : bool :=
-  Nat.eqb (length a) (length b) && forallb (fun p : bool * bool => Bool.eqb (fst p) (snd p)) (combine a b).
-
-Definition eqb_listZ (a b : list Z) : bool :=
-  Nat.eqb (length a) (length b) && forallb (fun p : Z * Z => fst p =? snd p) (combine a b).
-
-Definition eqb_vec (a b : vec) : bool :=
-  let '(a0, a1, a2) := a in let '(b0, b1, b2) := b in Qeq_bool a0 b0 && Qeq_bool a1 b1 && Qeq_bool a2 b2.
-
-Definition eqb_cap (a b : cap) : bool := eqb_vec (cx a) (cx b) && Qeq_bool (ccm a) (ccm b).
-
-Fixpoint eqb_caps (a b : list cap) : bool :=
-  match a, b with
-  | [], [] => true
-  | x :: a', y :: b' => eqb_cap x y && eqb_caps a' b'
-  | _, _ => false
-  end.
-
-(* two polygons agree on what is_in_polygon can see: NCAPS, USE_CAPS and the first NCAPS caps *)
-Definition eqb_poly (a b : polygon) : bool :=
-  Nat.eqb (pn a) (pn b) && (puse a =? puse b)
-  && eqb_caps (firstn (pn a) (pcaps a)) (firstn (pn b) (pcaps b)).
-
-Fixpoint eqb_polys (a b : list polygon) : bool :=
-  match a, b with
-  | [], [] => true
-  | x :: a', y :: b' => eqb_poly x y && eqb_polys a' b'
-  | _, _ => false
-  end.
 
 (* index (from 1) of the first position where two lists differ; 0 = equal *)
 Fixpoint first_diff {A : Type} (eqb : A -> A -> bool) (k : Z) (a b : list A) : Z :=
@@ -248,19 +135,6 @@ Inductive case :=
 | CSetUse (P : polygon) (idx : list Z) (o : suc_opts) (width : nat) (expect : option Z)
   (* window_read(balkans=True): the polygons found in r['balkans'] *)
 | CBalkans (bcaps : list cap) (blist : list (nat * nat)) (expect : list polygon).
-
-(* specification for the balkans: polygon k holds caps ICAP_k .. ICAP_k+NCAPS_k-1 in order and uses all *)
-Definition spec_balkans_ok (bcaps : list cap) (blist : list (nat * nat)) (got : list polygon) : bool :=
-  Nat.eqb (length blist) (length got)
-  && forallb (fun rg : (nat * nat) * polygon =>
-                let '((icap, n), g) := rg in
-                Nat.eqb (pn g) n
-                && forallb (fun i => Bool.eqb (Z.testbit (puse g) (Z.of_nat i)) (i <? n)%nat) (seq 0 32)
-                && forallb (fun i => match nth_error (pcaps g) i, nth_error bcaps (icap + i) with
-                                     | Some a, Some b => eqb_cap a b
-                                     | _, _ => false
-                                     end) (seq 0 n))
-             (combine blist got).
 
 (* verdict: v mod 4: bit 1 (+1) = M differs from the implementation, bit 2 (+2) = the implementation's
    answer contradicts S;  v / 4 = 1-based position of the first answer contradicting S (else of the first
